@@ -330,11 +330,13 @@ func dumpFunc(fn *ssa.Function) {
 				in["op"] = "Index"
 				in["x"] = val(x.X)
 				in["index"] = val(x.Index)
+				in["itype"] = tid(x.Index.Type())
 				in["xtype"] = tid(x.X.Type())
 			case *ssa.IndexAddr:
 				in["op"] = "IndexAddr"
 				in["x"] = val(x.X)
 				in["index"] = val(x.Index)
+				in["itype"] = tid(x.Index.Type())
 				in["xtype"] = tid(x.X.Type())
 			case *ssa.Jump:
 				in["op"] = "Jump"
